@@ -1227,6 +1227,12 @@ hdf_read_ndgs(NC *handle)
             formatbuf = hdf_get_pred_str_attr(handle, DFTAG_SDF, fRef, 3);
             scalebuf  = hdf_get_pred_str_attr(handle, DFTAG_SDS, sRef, 0);
 
+            /* a record that is there but could not be read is an error: do not go on
+               as if the data set had no labels/units/formats/scales */
+            if ((lRef && labelbuf == NULL) || (uRef && unitbuf == NULL) || (fRef && formatbuf == NULL) ||
+                (sRef && scalebuf == NULL))
+                HGOTO_ERROR(DFE_GETELEM, FAIL);
+
             /* skip over the garbage at the beginning */
             scale_offset = rank * sizeof(uint8);
 
